@@ -41,7 +41,7 @@ def entries():
     return out
 
 def run_check(c):
-    r = sh("%s/check %s quick" % (HERE, c))
+    r = sh("VERIF_EVIDENCE_DIR=%s/harness/target/evidence-scratch %s/check %s quick" % (HERE, HERE, c))
     viol = [l for l in r.stdout.splitlines() if l.startswith("VIOLATION")]
     return r.returncode, viol
 
